@@ -234,7 +234,13 @@ func (b *Builder) epsilonClosureOnePass(root nfa.StateID) ([]closureEntry, bool,
 			// For onepass DFA (which is always anchored at start):
 			// - Start anchors (^, \A): Always satisfied - follow epsilon
 			// - End anchors ($, \z): Follow epsilon; match checked at input end
-			_, next := state.Look()
+			look, next := state.Look()
+			// Only a start assertion in the closure of the start state is known to
+			// hold (the search is anchored at the start of the input). Any other
+			// assertion depends on the bytes around the position: not one-pass here.
+			if !((look == nfa.LookStartText || look == nfa.LookStartLine) && root == b.nfa.StartAnchored()) {
+				return nil, false, ErrNotOnePass
+			}
 			if next != nfa.InvalidState {
 				if err := b.stackPush(next, slots); err != nil {
 					return nil, false, err
